@@ -203,6 +203,8 @@ class Central:
         if sc is None:
             sc = self.variant == "lesc" or (self.variant == "both" and self.rng.random() < 0.5)
         io = self.rng.choice([0, 1, 2, 3, 4])
+        if sc and self.ioname == "dispyn" and self.rng.random() < 0.6:
+            io = self.rng.choice([1, 4])        # numeric comparison
         oobflag = 1 if self.rng.random() < 0.2 else 0
         auth = (0x08 if sc else 0) | self.rng.choice([0, 1, 4, 5, 0x10, 0x40, 0xc5 & ~0x08])
         req = [1, io, oobflag, auth, self.rng.choice([7, 16, 16, 16, 10]), self.rng.randrange(16), self.rng.randrange(16)]
@@ -575,7 +577,7 @@ class Monitor:
         if not tks:
             self.hit("C32", "C32:sconfirm-unexplained", "the peripheral's confirm value matches no temporary key the user side knows", k)
             return
-        name, tk = tks[-1]
+        name, tk = tks[0]
         if t_c1(tk, mrand, p1, p2) != mconfirm:
             self.hit("C32", "C32:srand-revealed-without-confirm-check:" + name,
                      "Pairing Random %s sent although c1(tk, mrand) != mconfirm %s" % (hx(rsp), hx(mconfirm)), k)
@@ -816,7 +818,8 @@ T = "BluetoeModel.Sm."
 PROPS = {
     "C32": dict(COMMON,
         theorems=[T + "accepted_only_in_order", T + "accepted_language", T + "else_failed_and_idle", T + "srand_after_confirm_check",
-                  T + "confirm_is_last_received", T + "dhkey_after_check_partial", T + "dhkey_after_check_without_numeric_comparison"],
+                  T + "dhkey_after_check_partial", T + "dhkey_after_check_without_numeric_comparison",
+                  T + "l2capInput_spec", T + "l2capOutput_spec", T + "inv_step"],
         witnesses=[T + "dhkey_after_check_witness"],
         run=run_prop("C32"),
         level_text="accepted_only_in_order / accepted_language / else_failed_and_idle: for every variant, IO configuration, state and PDU a PDU is either accepted at its place in the protocol order (table `AcceptedAt`) or answered by Pairing Failed with the state idle; srand_after_confirm_check: the legacy Pairing Random is only sent when c1(tk, mrand, p1, p2) equals the stored confirm value, which is the last received one. dhkey_after_check_full is FALSE (witness theorem, replayed on the real code): the DHKey check is sent unverified from l2cap_output in user_response_success; dhkey_after_check_partial proves that this is the only way.",
